@@ -1149,7 +1149,12 @@ func ExpiryCases(e *Emitter, r *Rand, tier string) {
 								override([]int{8}, []int64{-1}), override([]int{7, 8}, []int64{0, 0}),
 								// authorization_code and refresh_token grants: access (0, 10) and refresh (2, 11) overrides
 								override([]int{0, 2, 10, 11}, []int64{5*exySec + 300_000_000, 6*exySec + 500_000_000, 12*exySec + 700_000_000, 13*exySec + 1}),
-								override([]int{2, 11}, []int64{2 * exySec, 3 * exySec}), override([]int{2, 11}, []int64{-1, -1}))
+								override([]int{2, 11}, []int64{2 * exySec, 3 * exySec}), override([]int{2, 11}, []int64{-1, -1}),
+								// partially configured clients: exactly one pair of the two grants, or one grant only, is overridden
+								override([]int{2}, []int64{4*exySec + 100_000_000}), override([]int{11}, []int64{14*exySec + 200_000_000}),
+								override([]int{0}, []int64{15*exySec + 300_000_000}), override([]int{10}, []int64{16*exySec + 400_000_000}),
+								override([]int{0, 2}, []int64{17 * exySec, 18 * exySec}), override([]int{10, 11}, []int64{19 * exySec, 20 * exySec}),
+								override([]int{7}, []int64{21 * exySec}), override([]int{8}, []int64{22 * exySec}))
 						}
 						for _, cl := range cls {
 							pres := []string{"-"}
